@@ -23,11 +23,11 @@ Proof.
   rewrite name_path_asis by assumption. reflexivity.
 Qed.
 
-Theorem record_roundtrip_asis sty c fs vs text rest fw tw :
+Theorem record_roundtrip_asis sty c fs chk vs text rest fw tw :
   schema_wf fs -> Forall2 val_ok fs vs -> style_ok sty -> line_end rest ->
   s_origin sty = None -> p_origin c = None -> p_relativize_to c = None ->
-  record_to_text sty fs vs = Ok text ->
-  record_from_text_gen fw tw c fs (text ++ rest) = Ok vs.
+  record_to_text sty fs vs = Ok text -> chk vs = Ok tt ->
+  record_from_text_gen fw tw c fs chk (text ++ rest) = Ok vs.
 Proof.
   intros. eapply record_roundtrip; eauto. apply expects_asis; assumption.
 Qed.
